@@ -74,6 +74,13 @@ pub struct Cfg {
     /// reset the k-th client stream after writing this many bytes (0 = never)
     pub reset_stream: i64,
     pub reset_after: u64,
+    /// writer API: 0 send(Bytes), 1 send_vectored, 2 tokio write, 3 tokio write_vectored, 4 futures write, 9 per-stream mix
+    pub wapi: u64,
+    /// reader API: 0 receive(), 1 receive_vectored, 2 tokio read with a small buffer, 3 futures read, 9 per-stream mix
+    pub rapi: u64,
+    pub rbuf: u64,
+    /// finish without waiting, then reset after this delay (0 = off)
+    pub reset_after_finish_ms: u64,
     /// the server answers every token-less Initial with a Retry (address validation)
     pub retry: bool,
     pub reset_delay_ms: u64,
@@ -151,6 +158,10 @@ impl Default for Cfg {
             read_delay_ms: 0,
             reset_stream: -1,
             reset_after: 0,
+            wapi: 0,
+            rapi: 0,
+            rbuf: 700,
+            reset_after_finish_ms: 0,
             retry: false,
             reset_delay_ms: 0,
             stop_stream: -1,
@@ -252,6 +263,10 @@ impl Cfg {
                 "read_delay_ms" => c.read_delay_ms = n()?,
                 "reset_stream" => c.reset_stream = n()? as i64,
                 "reset_after" => c.reset_after = n()?,
+                "wapi" => c.wapi = n()?,
+                "rapi" => c.rapi = n()?,
+                "rbuf" => c.rbuf = n()?.max(1),
+                "reset_after_finish_ms" => c.reset_after_finish_ms = n()?,
                 "retry" => c.retry = n()? != 0,
                 "reset_delay_ms" => c.reset_delay_ms = n()?,
                 "stop_stream" => c.stop_stream = n()? as i64,
